@@ -22,10 +22,14 @@ def run(c):
     slow = lambda s: s["m"]["disp"] == "slow" or s["m"]["why"] in ("alertin", "alerteg")
     _dpadv.pipeline(
         c, "C09",
-        explores=[("adv.quick", False), ("faults", False), ("bfd.quick", False), ("alert.quick", False),
-                  ("epic.quick", False), ("adv.quick", True), ("faults", True), ("bfd.quick", True)],
-        budget=2400 if th else 200,
+        explores=([("adv.quick", False), ("faults", False), ("bfd.quick", False), ("alert.quick", False),
+                   ("epic.quick", False), ("adv.quick", True), ("faults", True), ("bfd.quick", True)] if th else
+                  [("causes", False), ("faults", False), ("bfd.quick", False),
+                   ("causes", True), ("faults", True), ("bfd.quick", True)]),
+        budget=2400 if th else 180,
         keep=slow,
+        # one stratum per (configuration, cause, ingress link, path kind): every cause is provoked
+        stratum=lambda t, s: (t, s["m"]["disp"], s["m"]["why"], s["p"]["via"], s["p"]["kind"]),
         rand={"rand": 150 if th else 40, "maxhops": 4, "kinds": ["scion", "epic"]},
         flags=["-c09"],
         nontrivial=lambda e: e["s"]["ran"])
